@@ -33,6 +33,19 @@ M("c01-handler-returns-none", "C01", "C01.R2", (TH, "            logging.excepti
 M("c01-return-none-when-no-actions", "C01", "C01.R2", (TH, "        if len(actions) == 0:\n            return self.trace_call", "        if len(actions) == 0:\n            return None"))
 M("c01-reraise-in-handler", "C01", "C01.R1", (TH, "            logging.exception(\"Cannot process trace event %s\", event)\n            return self.trace_call",
                                                "            logging.exception(\"Cannot process trace event %s\", event)\n            raise"))
+M("c01-callback-cleanup-not-in-finally", "C01", "C01.R4", (TH, """        finally:
+            # also when a callback fails: an empty queue that is still set would fail every later event of this thread
+            if len(self._callbacks.value) == 0:""", """        finally:
+            pass
+        if True:
+            if len(self._callbacks.value) == 0:"""))
+M("c01-callback-failure-skips-matching", "C01", "C01.R4", (TH, """            try:
+                self.__process_call_backs(trigger_context, arg, frame, event, file, line, function)
+            except BaseException:
+                # a failing callback must not stop us from matching the tracepoints for this event
+                logging.exception("Cannot process callbacks at %s#%s %s", file, line, function)
+""", """            self.__process_call_backs(trigger_context, arg, frame, event, file, line, function)
+"""))
 R("c01-rename-local", "C01", (TH, "        actions = self.__actions_for_location(event, file, line, function, frame)\n        if len(actions) == 0:",
                               "        matched = self.__actions_for_location(event, file, line, function, frame)\n        actions = matched\n        if len(actions) == 0:"))
 
@@ -319,7 +332,9 @@ R("c11-stage-get", "C11", (TRG, "    if STAGE in args:\n        stage_ = args[ST
 
 # ------------------------------------------------------------------ C06
 FCOL = "src/deep/processor/frame_collector.py"
-M("c06-dict-of-any-object", "C06", "C06.TOTAL", (VPF, "    elif hasattr(value, '__dict__'):\n        # not all objects", "    elif hasattr(value, '__class__'):\n        # not all objects"))
+M("c06-unguarded-attribute-dict", "C06", "C06.TOTAL", (VPF, "    try:\n        return value.__dict__\n    except Exception:\n        return None", "    return value.__dict__ if hasattr(value, '__dict__') else None"))
+M("c06-attribute-dict-none-unchecked", "C06", "C06.TOTAL", (VPF, "        if attributes is not None:\n            return process_dict_breadth_first", "        if True:\n            return process_dict_breadth_first"))
+M("c06-isinstance-exception", "C06", "C06.TOTAL", (VPF, "    elif issubclass(variable_type, Exception):", "    elif isinstance(value, Exception):"))
 M("c06-raw-key-names", "C06", "C06.TOTAL", (VPF, "NodeValue(func(type_name, safe_str(key)), value[key], safe_str(key))", "NodeValue(func(type_name, key), value[key], key)"))
 M("c06-unguarded-str", "C06", "C06.TOTAL", (VPF, "    try:\n        return str(value)\n    except Exception:\n        return f'{type(value)}@{id(value)}'", "    return str(value)"))
 M("c06-len-of-anything", "C06", "C06.TOTAL", (VPF, "    elif variable_type is dict \\\n            or variable_type.__name__ in LIST_LIKE_TYPES:", "    elif hasattr(var_value, '__len__'):"))
@@ -453,9 +468,9 @@ R("c12-serial-pool", "C12", (TASK, "self._pool = ThreadPoolExecutor(max_workers=
 # ------------------------------------------------------------------ C15
 CBC = "src/deep/processor/context/callback_context.py"
 TLF = "src/deep/thread_local.py"
-M("c15-process-and-keep", "C15", "C15.ONCE", (TH, "            context.process(ctx, event, frame, arg)\n        else:", "            context.process(ctx, event, frame, arg)\n            self._callbacks.value.append(context)\n        else:"))
-M("c15-dropped-when-elsewhere", "C15", "C15.ONCE", (TH, "            # else put the context back on the queue\n            self._callbacks.value.append(context)\n", "            # else put the context back on the queue\n"))
-M("c15-register-before-processing", "C15", "C15.ONCE", (TH, "        if event in [\"line\", \"return\", \"exception\"] and self._callbacks.is_set:\n            self.__process_call_backs(trigger_context, arg, frame, event, file, line, function)\n", ""), (TH, "        return self.trace_call\n\n    def __actions_for_location", "        if event in [\"line\", \"return\", \"exception\"] and self._callbacks.is_set:\n            self.__process_call_backs(trigger_context, arg, frame, event, file, line, function)\n        return self.trace_call\n\n    def __actions_for_location"))
+M("c15-process-and-keep", "C15", "C15.ONCE", (TH, "                context.process(ctx, event, frame, arg)\n            else:", "                context.process(ctx, event, frame, arg)\n                self._callbacks.value.append(context)\n            else:"))
+M("c15-dropped-when-elsewhere", "C15", "C15.ONCE", (TH, "                # else put the context back on the queue\n                self._callbacks.value.append(context)\n", "                # else put the context back on the queue\n                pass\n"))
+M("c15-register-before-processing", "C15", "C15.ONCE", (TH, "        if event in [\"line\", \"return\", \"exception\"] and self._callbacks.is_set:\n            try:\n                self.__process_call_backs(trigger_context, arg, frame, event, file, line, function)\n            except BaseException:\n                # a failing callback must not stop us from matching the tracepoints for this event\n                logging.exception(\"Cannot process callbacks at %s#%s %s\", file, line, function)\n", ""), (TH, "        return self.trace_call\n\n    def __actions_for_location", "        if event in [\"line\", \"return\", \"exception\"] and self._callbacks.is_set:\n            self.__process_call_backs(trigger_context, arg, frame, event, file, line, function)\n        return self.trace_call\n\n    def __actions_for_location"))
 M("c15-method-completes-on-line", "C15", "C15.TABLE", (CBC, "        if event in ['exception', 'return']:\n            return True\n        return False", "        if event in ['exception', 'return', 'line']:\n            return True\n        return False"))
 M("c15-ignores-function-name", "C15", "C15.TABLE", (CBC, "        if file != self.__filename or function_name != self.__function_name:\n            return False\n\n        if self.__event", "        if file != self.__filename:\n            return False\n\n        if self.__event"))
 M("c15-capture-trigger-arg", "C15", "C15.RESULT", (SNAP, "            watch, new_vars, _ = self.__action_context.process_capture_variable(event, arg)\n            self.__snapshot.add_watch_result(watch)", "            watch, new_vars, _ = self.__action_context.process_capture_variable(event, ctx.arg)\n            self.__snapshot.add_watch_result(watch)"))
